@@ -132,6 +132,8 @@ def structure_correspondence(chk, progs):
         form = p[2]
         if any(c[0] == "dosetv" for c in (form[2] if form[0] == "comp" else form[1])):
             continue      # :do (setv ..) is an Assign statement in the code, a plain :do in the model
+        if any(cp.has(n[3], "stm") for n in cp.nested_forms(form)):
+            continue      # a nested form compiled to a generator function leaves a def (and its leak declaration) behind
         if form[0] == "for" and not (len(form[2]) == 1 and form[2][0][0] == "expr" and not cp.has(form[2][0][1], "stm")):
             continue
         todo.append(p)
